@@ -8,6 +8,7 @@ package main
 import (
 	"bufio"
 	"bytes"
+	"crypto/sha256"
 	"encoding/hex"
 	"encoding/json"
 	"fmt"
@@ -116,6 +117,151 @@ type sessionEnv struct {
 	viewGen  int
 	chunkNo  int
 	chunkTag map[string]byte
+
+	// concurrent mode: this env belongs to one connection
+	priv        []string // its private subtree
+	shared      []nodeJ  // the static rest of the tree
+	staticViews []map[string]interface{}
+	barrier     *barrier
+}
+
+// snap re-reads the tree: everything, or (concurrent mode) the static shared part
+// plus this connection's private subtree.
+func (env *sessionEnv) snap() ([]nodeJ, string, error) {
+	if env.priv == nil {
+		return env.w.snapshot()
+	}
+	all, _, err := env.w.snapshot()
+	if err != nil {
+		return nil, "", err
+	}
+	nodes := append([]nodeJ{}, env.shared...)
+	h := sha256.New()
+	for _, n := range all {
+		if len(n.P) >= len(env.priv) && equalSegs(n.P[:len(env.priv)], env.priv) {
+			nodes = append(nodes, n)
+			fmt.Fprintf(h, "%v|%s|%v|%s|%d|%d\n", n.P, n.Kind, n.Size, n.Cid, n.Mtime, n.Ctime)
+		}
+	}
+	return nodes, hex.EncodeToString(h.Sum(nil)), nil
+}
+
+func equalSegs(a, b []string) bool {
+	if len(a) != len(b) {
+		return false
+	}
+	for i := range a {
+		if a[i] != b[i] {
+			return false
+		}
+	}
+	return true
+}
+
+type barrier struct {
+	mu    sync.Mutex
+	cond  *sync.Cond
+	n     int
+	count int
+	gen   int
+}
+
+func newBarrier(n int) *barrier {
+	b := &barrier{n: n}
+	b.cond = sync.NewCond(&b.mu)
+	return b
+}
+
+func (b *barrier) wait() {
+	b.mu.Lock()
+	defer b.mu.Unlock()
+	g := b.gen
+	b.count++
+	if b.count >= b.n {
+		b.count = 0
+		b.gen++
+		b.cond.Broadcast()
+		return
+	}
+	for g == b.gen {
+		b.cond.Wait()
+	}
+}
+
+func (b *barrier) leave() {
+	b.mu.Lock()
+	b.n--
+	if b.count >= b.n && b.n > 0 {
+		b.count = 0
+		b.gen++
+		b.cond.Broadcast()
+	}
+	b.mu.Unlock()
+}
+
+// runConcurrent: every connection runs its script in its own goroutine. Each
+// gets its own trace (World line = shared tree + its private subtree
+// "p<id>"), validated on its own against the single-connection specification.
+func (env *sessionEnv) runConcurrent(nodes []nodeJ, views []map[string]interface{}) error {
+	wj := env.wj
+	isPriv := func(p []string) bool { return len(p) > 0 && strings.HasPrefix(p[0], "priv") }
+	var shared []nodeJ
+	for _, n := range nodes {
+		if !isPriv(n.P) {
+			shared = append(shared, n)
+		}
+	}
+	bar := newBarrier(len(wj.Conns))
+	bufs := make([]*bytes.Buffer, len(wj.Conns))
+	var wg sync.WaitGroup
+	for i := range wj.Conns {
+		cj := &wj.Conns[i]
+		bufs[i] = &bytes.Buffer{}
+		sub := *env
+		sub.em = &emitter{w: bufio.NewWriter(bufs[i])}
+		sub.priv = []string{fmt.Sprintf("priv%d", cj.ID)}
+		sub.shared = shared
+		sub.staticViews = views
+		sub.barrier = bar
+		sub.chunkTag = nil
+		sub.chunkNo = cj.ID * 16 // distinct first bytes across connections
+		first, fp, err := sub.snap()
+		if err != nil {
+			return err
+		}
+		sub.lastFP = fp
+		sub.em.emit(map[string]interface{}{"ev": "World", "name": fmt.Sprintf("%s/c%d", wj.Name, cj.ID), "aw": wj.Aw, "nodes": first,
+			"views": views, "root": wj.RootSpelling, "index": env.index})
+		wg.Add(1)
+		go func(sub *sessionEnv, cj *connJ) {
+			defer wg.Done()
+			defer bar.leave()
+			c := sub.connect(cj)
+			alive := true
+			for j := range cj.Reqs {
+				if cj.Reqs[j].Op == "BARRIER" {
+					bar.wait()
+					continue
+				}
+				if !alive {
+					continue
+				}
+				alive = sub.doReq(c, cj, &cj.Reqs[j])
+			}
+			if alive {
+				sub.endConn(c, cj)
+			}
+			sub.em.w.Flush()
+		}(&sub, cj)
+	}
+	wg.Wait()
+	for _, b := range bufs {
+		env.em.mu.Lock()
+		env.em.w.Write(b.Bytes())
+		env.em.w.Flush()
+		env.em.mu.Unlock()
+	}
+	return nil
 }
 
 func cmdSession(args []string) error {
@@ -256,8 +402,10 @@ func runWorld(pt *protoTable, wj *worldJ, em *emitter, index int) error {
 	if wj.Sentinel {
 		sentBefore, _ = w.sentinelDigest()
 	}
-	em.emit(map[string]interface{}{"ev": "World", "name": wj.Name, "aw": wj.Aw, "nodes": nodes, "views": viewsOut,
-		"root": wj.RootSpelling, "index": index})
+	if wj.Schedule != "conc" {
+		em.emit(map[string]interface{}{"ev": "World", "name": wj.Name, "aw": wj.Aw, "nodes": nodes, "views": viewsOut,
+			"root": wj.RootSpelling, "index": index})
+	}
 
 	switch wj.Schedule {
 	case "", "seq":
@@ -293,6 +441,10 @@ func runWorld(pt *protoTable, wj *worldJ, em *emitter, index int) error {
 			if alive[i] {
 				env.endConn(conns[i], &wj.Conns[i])
 			}
+		}
+	case "conc":
+		if err := env.runConcurrent(nodes, viewsOut); err != nil {
+			return err
 		}
 	default:
 		return fmt.Errorf("unknown schedule %q", wj.Schedule)
@@ -673,7 +825,7 @@ func (env *sessionEnv) exchange(c *memConn, cj *connJ, op string, req map[string
 	ev := map[string]interface{}{"ev": "Req", "c": cj.ID, "req": req, "resp": resp, "closed": closed,
 		"hang": !quiet, "consumed": c.Consumed(), "pending": c.Pending(),
 		"faults": env.ledger.FaultsApplied() - faultsBefore, "fsops": env.ledger.OpCount() - opsBefore}
-	nodes, fp, err := env.w.snapshot()
+	nodes, fp, err := env.snap()
 	if err != nil {
 		ev["mut"] = true
 		ev["tree"] = []nodeJ{}
@@ -682,12 +834,19 @@ func (env *sessionEnv) exchange(c *memConn, cj *connJ, op string, req map[string
 	} else if fp != env.lastFP {
 		ev["mut"] = true
 		ev["tree"] = nodes
-		ev["views"] = env.buildViews()
+		if env.priv == nil {
+			ev["views"] = env.buildViews()
+		} else {
+			ev["views"] = env.staticViews
+		}
 		env.lastFP = fp
 	} else {
 		ev["mut"] = false
 	}
 	ev["handles"] = env.ledger.OpenCount(cj.ID)
+	if env.priv != nil {
+		ev["handles"] = -1 // concurrent connections: the ledger cannot attribute opens
+	}
 	if closed {
 		ev["gor"] = serveConnGoroutines()
 	}
@@ -723,7 +882,11 @@ func (env *sessionEnv) endConn(c *memConn, cj *connJ) {
 	}
 	ok := c.WaitClosed(10 * time.Second)
 	env.awaitRelease(cj.ID)
-	env.em.emit(map[string]interface{}{"ev": "Close", "c": cj.ID, "handles": env.ledger.OpenCount(cj.ID), "serverClosed": ok,
+	h := env.ledger.OpenCount(cj.ID)
+	if env.priv != nil {
+		h = 0
+	}
+	env.em.emit(map[string]interface{}{"ev": "Close", "c": cj.ID, "handles": h, "serverClosed": ok,
 		"how": cj.End})
 }
 
